@@ -284,8 +284,19 @@ impl Serialize for ErrorKind {
                     &UInt::try_from(duration.as_millis()).map_err(ser::Error::custom)?,
                 )?;
             }
+            Self::BadStatus { status, body } => {
+                if let Some(status) = status {
+                    st.serialize_entry("status", &status.as_u16())?;
+                }
+                if let Some(body) = body {
+                    st.serialize_entry("body", body)?;
+                }
+            }
             Self::IncompatibleRoomVersion { room_version } => {
                 st.serialize_entry("room_version", room_version)?;
+            }
+            Self::WrongRoomKeysVersion { current_version } => {
+                st.serialize_entry("current_version", current_version)?;
             }
             Self::ResourceLimitExceeded { admin_contact } => {
                 st.serialize_entry("admin_contact", admin_contact)?;
